@@ -478,3 +478,7 @@ impl Drop for ReclaimingBlock {
         self.block_manager.on_reclaim_finish(self.block.clone());
     }
 }
+
+#[cfg(kani)]
+#[path = "/verif/harness/foyer-storage/manager.rs"]
+mod verif_kani;
